@@ -119,10 +119,11 @@ pub fn run(args: &Args, rep: &mut Report) {
                     prev = *c;
                 }
             }
-            let (fh, agg, metrics, new_xorbs) = d.finalize([0u8; 32], None);
-            Ok::<_, String>((fh, agg, metrics, new_xorbs, per_block))
+            let (fh, agg, metrics, _new_xorbs) = d.finalize([0u8; 32], None);
+            let (leftover_xorb, files) = agg.finalize();
+            Ok::<_, String>((fh, leftover_xorb, files, metrics, per_block))
         });
-        let (fh, agg, metrics, _new_xorbs, per_block) = match res {
+        let (fh, leftover_xorb, files, metrics, per_block) = match res {
             Err(p) => {
                 // a panic of the deduper on a valid chunk sequence (with debug assertions on, the code's own
                 // bookkeeping checks fire here) - reported under C15 (unresolved references) and C02
@@ -138,7 +139,6 @@ pub fn run(args: &Args, rep: &mut Report) {
         };
         let g = index.lock().unwrap();
         // resolve the record: real hashes -> registered xorbs, zero hash -> the leftover aggregator
-        let (leftover_xorb, files) = agg.finalize();
         let fi = &files[0];
         let mut all: Vec<(MerkleHash, u32)> = Vec::new();
         let mut problem: Option<(&str, String)> = None;
